@@ -9,3 +9,8 @@ import P2P.Props.C15
 #print axioms P2P.Props.C15.findCoordinates_rigid
 #print axioms P2P.Props.C15.horn_identity
 #print axioms P2P.Props.C15.horn_exact
+#print axioms P2P.Props.C15.torsion_unit
+#print axioms P2P.Props.C15.torsion_rotates
+#print axioms P2P.Props.C15.dihedral_value
+#print axioms P2P.Props.C15.torsion_set
+#print axioms P2P.Props.C15.torsion_sequence
